@@ -232,6 +232,11 @@ void Hist::run() {
     int done = 0, guard = 0;
     while (done < maxops && guard < maxops * 20) {
         ++guard;
+        // diagnosed state: the object was loaded from a file whose ANALOG group lacks the mandatory parameters (empty ANALOG group, a
+        // layout the loader accepts).  The updaters need them, so edits throw half-way: reported under one key, whatever monitor sees it.
+        { bool inc = external && !(prev.param("ANALOG", "USED") && prev.param("ANALOG", "LABELS") && prev.param("ANALOG", "RATE") && prev.param("ANALOG", "SCALE") && prev.param("ANALOG", "OFFSET") && prev.param("ANALOG", "UNITS") && prev.param("ANALOG", "DESCRIPTIONS"));
+          if (inc) analogIncomplete = true;
+          log.overrideKey = analogIncomplete ? "edit_of_object_loaded_without_mandatory_analog_parameters" : ""; }
         int x = rng.range(0, total - 1); size_t k = 0; while (x >= ops[k].second) { x -= ops[k].second; ++k; }
         const std::string& n = ops[k].first; bool ran;
         if (n == "rate_p") ran = opSetRate(false); else if (n == "rate_a") ran = opSetRate(true);
@@ -254,7 +259,7 @@ void Hist::run() {
         Outcome so; VF_TRY(so, obj->write(b));
         snprintf(b, sizeof b, "%s/final_%ld.json", o.out.c_str(), idx);
         writeFileBytes(b, toJson(prev, true));
-        log.line("FINAL %s gaps=%d managedEdited=%d wild=%d", so.threw ? ("save_threw:" + so.cls).c_str() : "saved", hasGapsS(prev) ? 1 : 0, managedEdited ? 1 : 0, wild ? 1 : 0);
+        log.line("FINAL %s gaps=%d managedEdited=%d wild=%d offSpec=%d external=%d incomplete=%d", so.threw ? ("save_threw:" + so.cls).c_str() : "saved", hasGapsS(prev) ? 1 : 0, managedEdited ? 1 : 0, wild ? 1 : 0, offSpec ? 1 : 0, external ? 1 : 0, analogIncomplete ? 1 : 0);
     }
     log.pre("destroy"); obj.reset();       // explicit destruction inside the monitored region
     Outcome none; log.ev("destroy", "", none);
